@@ -16,6 +16,9 @@ Degenerate ==
   \cup { FeeTx(<<[WRec("A1", 1, LastOf("wrk", 1) + 1) EXCEPT !.bh = ""]>>), FeeTx(<<[BRec("A1", 1) EXCEPT !.hash = ""]>>), FeeTx(<<[BRec("A1", 1) EXCEPT !.subt = 0]>>),
          FeeTx(<<BRec("A1", 0)>>), FeeTx(<<WBuy("A1", 1, 0)>>), FeeTx(<<WBuy("A1", 0, 1)>>), FeeTx(<<BBuy("A1", 1, 0)>>), FeeTx(<<BBuy("A1", 0, 1)>>),
          FeeTx(<<[t |-> "BReg", owner |-> "A2", moniker |-> "m", name |-> ""]>>) }
+  \* white space at the edges of a moniker / name, a moniker of blanks only: stored exactly as submitted
+  \cup { FeeTx(<<[t |-> "BReg", owner |-> "A2", moniker |-> mn[1], name |-> mn[2]]>>) : mn \in {<<" m ", "n">>, <<"m", " n ">>, <<"   ", "n">>} }
+  \cup { FeeTx(<<[t |-> "WReg", owner |-> "A2", moniker |-> " m ", name |-> " n", genesis |-> "g ", type |-> "t"]>>) }
 SweepAlphabet == TxAlphabet \cup Degenerate
 
 SwInit ==  /\ st = StateOf(Gen) /\ hist = <<[a |-> "InitChain", g |-> Gen]>>
